@@ -543,3 +543,80 @@ Theorem rule_prologues_ok : forallb prologue_ok Chains.rule_prologues = true /\ 
 Proof. split; vm_compute; reflexivity. Qed.
 
 End Val.
+
+(* ===================================================================================== *)
+(* 3. scalar kernels of the data layer (operators.go, reducers.go)                        *)
+(* ===================================================================================== *)
+Section Kern.
+Context {A : Type} {SA : Scalar A}.
+Notation T := (tensor A).
+
+(* the method hands exactly this literal to the element-wise traversal, and the literal IS f *)
+Definition unary_kernel (k : kfun) (nm : string) (cap : list (string * A)) (f : A -> A) : Prop :=
+  kf_body k = XTrav "applyUnaryFuncOnTensorElemWise" ["t"] (nm ++ "#0") /\
+  exists body, lookupS (kf_lits k) (nm ++ "#0") = Some (["a"], body) /\
+    forall a, evx (("a", a) :: cap) body = Some (f a).
+Definition binary_kernel (k : kfun) (nm : string) (f : A -> A -> A) : Prop :=
+  kf_body k = XTrav "applyBinaryFuncOnTensorsElemWise" ["t"; "u"] (nm ++ "#0") /\
+  exists body, lookupS (kf_lits k) (nm ++ "#0") = Some (["a"; "b"], body) /\
+    forall a b, evx [("a", a); ("b", b)] body = Some (f a b).
+
+Ltac kern := split; [reflexivity|eexists; split; [reflexivity|intros; reflexivity]].
+
+Theorem k_scale_ok u : unary_kernel Chains.k_scale "scale" [("u", u)] (unaryF (UScale u)). Proof. kern. Qed.
+Theorem k_pow_ok u : unary_kernel Chains.k_pow "pow" [("u", u)] (unaryF (UPow u)). Proof. kern. Qed.
+Theorem k_exp_ok : unary_kernel Chains.k_exp "exp" [] (@unaryF A SA UExpo). Proof. kern. Qed.
+Theorem k_log_ok : unary_kernel Chains.k_log "log" [] (@unaryF A SA ULn). Proof. kern. Qed.
+Theorem k_sin_ok : unary_kernel Chains.k_sin "sin" [] (@unaryF A SA USine). Proof. kern. Qed.
+Theorem k_cos_ok : unary_kernel Chains.k_cos "cos" [] (@unaryF A SA UCosine). Proof. kern. Qed.
+Theorem k_tan_ok : unary_kernel Chains.k_tan "tan" [] (@unaryF A SA UTang). Proof. kern. Qed.
+Theorem k_sinh_ok : unary_kernel Chains.k_sinh "sinh" [] (@unaryF A SA USinH). Proof. kern. Qed.
+Theorem k_cosh_ok : unary_kernel Chains.k_cosh "cosh" [] (@unaryF A SA UCosH). Proof. kern. Qed.
+Theorem k_tanh_ok : unary_kernel Chains.k_tanh "tanh" [] (@unaryF A SA UTanH). Proof. kern. Qed.
+
+Theorem k_eq_ok : binary_kernel Chains.k_eq "eq" (@binaryF A SA BiEq). Proof. kern. Qed.
+Theorem k_ne_ok : binary_kernel Chains.k_ne "ne" (@binaryF A SA BiNe). Proof. kern. Qed.
+Theorem k_gt_ok : binary_kernel Chains.k_gt "gt" (@binaryF A SA BiGt). Proof. kern. Qed.
+Theorem k_ge_ok : binary_kernel Chains.k_ge "ge" (@binaryF A SA BiGe). Proof. kern. Qed.
+Theorem k_lt_ok : binary_kernel Chains.k_lt "lt" (@binaryF A SA BiLt). Proof. kern. Qed.
+Theorem k_le_ok : binary_kernel Chains.k_le "le" (@binaryF A SA BiLe). Proof. kern. Qed.
+Theorem k_elmax_ok : binary_kernel Chains.k_elmax "elmax" (@binaryF A SA BiElMax). Proof. kern. Qed.
+Theorem k_elmin_ok : binary_kernel Chains.k_elmin "elmin" (@binaryF A SA BiElMin). Proof. kern. Qed.
+Theorem k_add_ok : binary_kernel Chains.k_add "add" (@binaryF A SA BiAdd). Proof. kern. Qed.
+Theorem k_sub_ok : binary_kernel Chains.k_sub "sub" (@binaryF A SA BiSub). Proof. kern. Qed.
+Theorem k_mul_ok : binary_kernel Chains.k_mul "mul" (@binaryF A SA BiMul). Proof. kern. Qed.
+Theorem k_div_ok : binary_kernel Chains.k_div "div" (@binaryF A SA BiDiv). Proof. kern. Qed.
+
+(* reducers: the whole-tensor statistics are the model's, for every tensor *)
+Definition rfuel := 20%nat.
+Theorem k_sum_ok (t : T) : evr rfuel Chains.k_sum t [] [] (kf_body Chains.k_sum) = r_sum t.
+Proof. reflexivity. Qed.
+Theorem k_max_ok (t : T) : evr rfuel Chains.k_max t [] [] (kf_body Chains.k_max) = r_max t.
+Proof. reflexivity. Qed.
+Theorem k_min_ok (t : T) : evr rfuel Chains.k_min t [] [] (kf_body Chains.k_min) = r_min t.
+Proof. reflexivity. Qed.
+Theorem k_avg_ok (t : T) : evr rfuel Chains.k_avg t [] [] (kf_body Chains.k_avg) = r_avg t.
+Proof. cbn. unfold r_avg. destruct (r_sum t); reflexivity. Qed.
+Theorem k_mean_ok (t : T) : evr rfuel Chains.k_mean t [] [] (kf_body Chains.k_mean) = r_mean t.
+Proof. reflexivity. Qed.
+Theorem k_std_ok (t : T) : evr rfuel Chains.k_std t [] [] (kf_body Chains.k_std) = r_std t.
+Proof. cbn. unfold r_std. destruct (r_var t); reflexivity. Qed.
+Theorem k_var_ok (t : T) : evr rfuel Chains.k_var t [] [] (kf_body Chains.k_var) = r_var t.
+Proof.
+  cbn. unfold r_var. destruct (r_mean t) as [xbar|]; [|reflexivity]. cbn.
+  destruct (reduceBy _ s0 t) as [sigma|]; [|reflexivity]. cbn.
+  destruct (1 <? numElems t)%nat; reflexivity.
+Qed.
+(* every fold literal is interpretable (so the total function used above is the literal itself) *)
+Theorem k_folds_total :
+  kfn2_total Chains.k_sum "sum#0" (@nil (string * A)) /\ kfn2_total Chains.k_max "max#0" (@nil (string * A)) /\
+  kfn2_total Chains.k_min "min#0" (@nil (string * A)) /\ forall xbar : A, kfn2_total Chains.k_var "_var#0" [("xBar", xbar)].
+Proof. repeat split; cbn; intros; discriminate. Qed.
+
+(* Equals: o := t.eq(u); n := o.numElems(); o.sum() >= float64(n)   (equalsD in the model) *)
+Theorem k_equals_ok :
+  kf_body Chains.k_equals =
+  XLet "o" (XCall1 "t.eq" (XV "u")) (XLet "n" (XCall0 "o.numElems") (XCmp ">=" (XCall0 "o.sum") (XCall1 "float64" (XV "n")))).
+Proof. reflexivity. Qed.
+
+End Kern.
